@@ -220,6 +220,10 @@ Definition step (cfg : list okind) (s : st) (e : ev) : option st :=
       match op_of s o with
       | SRun _ [] None => Some (set_op s o SDone)
       | SG2Rel [] => Some (set_op s o SDone)
+      | SG2 reqs =>
+          (* `yield self._lock_inreg(self)` (virtual.py:1521) sits between _lock_nodes and the `try`: an exception there ends the
+             operation with every node lock still held *)
+          if all_granted reqs then Some (set_op s o SDone) else None
       | SAny [] => Some (set_op s o SDone)
       | _ => None
       end
